@@ -23,7 +23,6 @@ func StName(s model.ShipMessageExchangeState) string {
 	return "State" + strconv.Itoa(int(s))
 }
 
-
 var IDs = map[string]string{"A": "SHIP-A", "B": "SHIP-B", "a": "ship-a", "empty": ""}
 
 func AbsID(s string) string {
@@ -107,7 +106,6 @@ func Classify(b []byte) (kind, m, id string) {
 	}
 	return "sent", "unclassified", ""
 }
-
 
 // ReN extracts the identifier the harnesses put into the SPINE payloads they send
 var ReN = regexp.MustCompile(`"n":"([^"]*)"`)
